@@ -300,9 +300,9 @@ func init() {
 		Config: func(any) simrt.Config { return simrt.Config{MaxSteps: 400000} },
 		Runs: func(tier string) int {
 			if tier == "thorough" {
-				return 3000000
+				return 12000000
 			}
-			return 40000
+			return 300000
 		},
 		Floors: []Floor{{
 			Name:     "truncation",
